@@ -505,7 +505,7 @@ Error String::_op_vformat(ModifyOp op, const char* fmt, va_list ap) noexcept {
   va_list ap_copy;
   va_copy(ap_copy, ap);
 
-  if (remaining_capacity >= 128) {
+  if (remaining_capacity >= 128 && op == ModifyOp::kAppend) {
     fmt_result = vsnprintf(data() + start_at, remaining_capacity, fmt, ap);
     output_size = size_t(fmt_result);
 
@@ -513,6 +513,9 @@ Error String::_op_vformat(ModifyOp op, const char* fmt, va_list ap) noexcept {
       _set_size(start_at + output_size);
       return Error::kOk;
     }
+
+    // The truncated attempt overwrote the terminator - restore it, the string must be intact if prepare() fails.
+    data()[start_at] = '\0';
   }
   else {
     fmt_result = vsnprintf(buf, ASMJIT_ARRAY_SIZE(buf), fmt, ap);
